@@ -479,3 +479,43 @@ impl Prop for C03 {
         json!({"program": render_plain(&case.lines).text, "n_input_vectors": case.inputs.len(), "features": case.info})
     }
 }
+
+#[cfg(test)]
+mod tests {
+    use super::*;
+
+    #[test]
+    fn exit_chain_is_found_stage_by_stage() {
+        // each further exit is reached by its own branch (number known) and by falling out of the previous one
+        let p = vec![
+            label("main"),
+            ins("li", vec![r(17), i(10)]),
+            ins("beqz", vec![r(10), l("plain")]),
+            ins("li", vec![r(17), i(93)]),
+            ins("beqz", vec![r(11), l("status")]),
+            ins("li", vec![r(17), i(10)]),
+            ins("ecall", vec![]),
+            label("status"),
+            ins("ecall", vec![]),
+            label("plain"),
+            ins("ecall", vec![]),
+            ins("li", vec![r(10), i(0)]),
+            ins("li", vec![r(17), i(10)]),
+            ins("ecall", vec![]),
+        ];
+        let e = definite_exits(&p);
+        assert_eq!(e.into_iter().collect::<Vec<_>>(), vec![6, 8, 10]);
+        // a number that may be 10 or 5 is no exit; dead code says nothing
+        let q = vec![
+            label("main"),
+            ins("li", vec![r(17), i(10)]),
+            ins("beqz", vec![r(10), l("x")]),
+            ins("li", vec![r(17), i(5)]),
+            label("x"),
+            ins("ecall", vec![]),
+            ins("li", vec![r(17), i(10)]),
+            ins("ecall", vec![]),
+        ];
+        assert_eq!(definite_exits(&q).into_iter().collect::<Vec<_>>(), vec![7]);
+    }
+}
